@@ -188,6 +188,11 @@ def _flin(f, e, sign=1, acc=None):
         if e[0] == "int":
             acc[1] = acc.get(1, 0) + sign * e[1]
             return acc
+        cs_ = mir.checked_sub_payload(e)
+        if cs_ is not None:
+            _flin(f, cs_[0], sign, acc)
+            _flin(f, cs_[1], -sign, acc)
+            return acc
         if e[0] == "binop" and e[1] in ("Add", "Sub", "AddUnchecked", "SubUnchecked"):
             _flin(f, e[2], sign, acc)
             _flin(f, e[3], sign if e[1].startswith("Add") else -sign, acc)
